@@ -1,0 +1,25 @@
+//go:build verif
+
+// Contracts for package state/balance (comment-only; read by /verif/cmd/govc).
+package balance
+
+//@ type PrefixBalanceHandler valuelike
+
+// the balance of an address lives under prefix ++ address ++ chunk suffix (1 chunk): injective in the address
+//@ func (*PrefixBalanceHandler).BalanceKey props C27
+//@   pure
+//@   ensures str(result) == cat(cat(str(p.Prefix), str(addr)), "\x00\x01")
+
+// balance stored under key k of state map m (absent = 0)
+//@ spec func balAt(m map[string][]byte, k bytes) int = ite(has(m, k), be64(m[k], 0), 0)
+
+// AddBalance adds exactly `amount` to the address's balance and touches nothing else; a sum that does
+// not fit 64 bits is rejected; a failure changes nothing.
+//@ func (*PrefixBalanceHandler).AddBalance props C27
+//@   requires has(gmap("vis", mu), str(PrefixBalanceHandler.BalanceKey(p, addr))) ==> len(gmap("vis", mu)[str(PrefixBalanceHandler.BalanceKey(p, addr))]) == 8
+//@   let K = str(PrefixBalanceHandler.BalanceKey(p, addr))
+//@   ensures err == nil ==> has(gmap("vis", mu), K) && len(gmap("vis", mu)[K]) == 8 && balAt(gmap("vis", mu), K) == old(balAt(gmap("vis", mu), K)) + amount
+//@   ensures err != nil ==> has(gmap("vis", mu), K) == old(has(gmap("vis", mu), K)) && gmap("vis", mu)[K] == old(gmap("vis", mu)[K])
+//@   ensures forall q string :: q != K ==> has(gmap("vis", mu), q) == old(has(gmap("vis", mu), q)) && gmap("vis", mu)[q] == old(gmap("vis", mu)[q])
+//@   ensures old(balAt(gmap("vis", mu), K)) + amount > MAX ==> err != nil
+//@   ensures state.stok(mu) && old(balAt(gmap("vis", mu), K)) + amount <= MAX ==> err == nil
